@@ -784,7 +784,11 @@ def obligations_damage(out, spec, st):
         return truncation_sweeps(out, spec, st)
     if k == "unsquash":
         return unsquash_ob(out, spec, st)
-    case = make_case(spec)
+    S.VEF_PILLOW_CONTRACT = True
+    try:
+        case = make_case(spec)
+    finally:
+        S.VEF_PILLOW_CONTRACT = False
     out["name"] = case.name
     out["encoded"].append((case.decoder, case.src))
     d = case.decoder
